@@ -51,6 +51,8 @@ Inductive event :=
 | EvLost (c : N)                                       (* dropped with a dead worker's queue *)
 | EvReleased (c : N)                                   (* guard dropped (connection finished/torn down) *)
 | EvReady (toks : list nat) (waker : bool)             (* what poll returned in a Turn *)
+| EvPauseOn                                            (* ghost: a Pause took effect (paused false -> true) *)
+| EvPauseOff                                           (* ghost: a Resume took effect (paused true -> false) *)
 | EvExit.                                              (* accept loop exits (Stop) *)
 
 Record state := {
@@ -452,11 +454,11 @@ Fixpoint handle_waker (fuel : nat) st (ys : ysched) : state * ysched :=
                       handle_waker f st2 ys2
                   end
               | IPause =>
-                  let st1 := if paused st0 then st0 else deregister_all (set_paused st0 true) in
+                  let st1 := if paused st0 then st0 else emit (deregister_all (set_paused st0 true)) EvPauseOn in
                   handle_waker f st1 ys
               | IResume =>
                   if paused st0 then
-                    let st1 := set_lsts (set_paused st0 false) (map register (lsts st0)) in
+                    let st1 := emit (set_lsts (set_paused st0 false) (map register (lsts st0))) EvPauseOff in
                     let '(st2, ys2) := accept_all st1 ys in
                     handle_waker f st2 ys2
                   else handle_waker f st0 ys
